@@ -7,6 +7,8 @@ import XalanModel.C19.XBVec
 import XalanModel.C19.RArena
 import XalanModel.C19.AutoPtr
 import XalanModel.C19.OStream
+import XalanModel.C19.XMap
+import XalanModel.C19.XBDeque
 import Driver.Util
 /-
 xm_c19: (a) replays container operation logs on the allocation-explicit models (same request lines as
@@ -36,6 +38,10 @@ structure St where
   bvec : XBVec := {}
   ap : APState := {}
   os : OStream := {}
+  mp : XMap := { minB := 2 }
+  dq : XBDeque := { bs := 1 }
+  dropEmpty : Bool := false
+  lateUnerase : Bool := false
   ra : RArena := { bs := 1 }
   raObjs : List (Option (Nat × Nat)) := []     -- objects in creation order: (block object id, slot); none = destroyed
   popNull : Bool := false
@@ -195,6 +201,55 @@ def osStep (s : St) : List String → St × String
     ({ s with os := {}, l := l1 }, s!"destroyed live={l1.live.length} bad={l1.bad}")
   | _ => (s, "bad")
 
+def showMap (m : XMap) : String :=
+  s!"size={m.size} buckets={m.buckets.length} bcap={(m.buckets.map (·.cap)).foldl (· + ·) 0} free={m.freeE.length} :" ++
+  String.join (m.entries.map fun e => s!" {e.key}={e.val}")
+
+def mapReply (s : St) (r : Out × XMap × Ledger) : St × String :=
+  ({ s with mp := r.2.1, l := r.2.2, dead := r.1 == .ub }, tail r.2.2 r.1 (showMap r.2.1))
+
+def mapStep (s : St) : List String → St × String
+  | ["new", n] => match n.toNat? with
+    | some n => ({ s with mp := { minB := n, lateUnerase := s.lateUnerase } }, tail s.l .ok (showMap { minB := n }))
+    | none => (s, "bad")
+  | ["newboxed", n] => match n.toNat? with
+    | some n => ({ s with mp := { minB := n, boxed := true, lateUnerase := s.lateUnerase } }, tail s.l .ok (showMap { minB := n }))
+    | none => (s, "bad")
+  | ["ins", k, v] => match k.toNat?, v.toInt? with
+    | some k, some v => mapReply s (s.mp.insert k v s.l)
+    | _, _ => (s, "bad")
+  | ["erase", k] => match k.toNat? with
+    | some k => mapReply s (s.mp.erase k s.l)
+    | none => (s, "bad")
+  | ["clear"] => mapReply s (s.mp.clear s.l)
+  | ["find", k] => match k.toNat? with
+    | some k => (s, tail s.l .ok (match s.mp.find k with | some e => s!"found {e.val}" | none => "none"))
+    | none => (s, "bad")
+  | ["destroy"] =>
+    let l1 := s.mp.destroy s.l
+    ({ s with mp := { minB := 2 }, l := l1 }, tail l1 .ok "destroyed")
+  | _ => (s, "bad")
+
+def showDq (d : XBDeque) : String :=
+  s!"size={d.size} idx={d.inIdx.length} free={d.inFree.length} :" ++ String.join (d.elems.map fun x => s!" {x}")
+
+def dqReply (s : St) (r : Out × XBDeque × Ledger) : St × String :=
+  ({ s with dq := r.2.1, l := r.2.2, dead := r.1 == .ub }, tail r.2.2 r.1 (showDq r.2.1))
+
+def dqStep (boxed : Bool) (s : St) : List String → St × String
+  | ["new", n] => match n.toNat? with
+    | some n => ({ s with dq := { bs := n, boxed := boxed, repaired := s.dropEmpty } }, tail s.l .ok (showDq { bs := n }))
+    | none => (s, "bad")
+  | ["push", x] => match x.toInt? with
+    | some x => dqReply s (s.dq.pushBack x s.l)
+    | none => (s, "bad")
+  | ["pop"] => dqReply s (s.dq.popBack s.l)
+  | ["clear"] => dqReply s (s.dq.clear s.l)
+  | ["destroy"] =>
+    let l1 := s.dq.destroy s.l
+    ({ s with dq := { bs := 1 }, l := l1 }, tail l1 .ok "destroyed")
+  | _ => (s, "bad")
+
 def showDeque (d : XDeque) : String :=
   s!"idx={d.idx.items.length} free={d.freeV.items.length} :" ++ String.join (d.elems.map fun x => s!" {x}")
 
@@ -220,9 +275,11 @@ def step (s : St) (ws : List String) : St × String :=
   | ["cfg", a, b] => ({ s with cfg := ⟨a == "1", b == "1"⟩ }, "cfg")
   | ["cfg", a, b, c] => ({ s with cfg := ⟨a == "1", b == "1"⟩, skipPending := c == "1" }, "cfg")
   | ["cfg", a, b, c, d] => ({ s with cfg := ⟨a == "1", b == "1"⟩, skipPending := c == "1", popNull := d == "1" }, "cfg")
+  | ["cfg", a, b, c, d, e] => ({ s with cfg := ⟨a == "1", b == "1"⟩, skipPending := c == "1", popNull := d == "1", dropEmpty := e == "1" }, "cfg")
+  | ["cfg", a, b, c, d, e, g] => ({ s with cfg := ⟨a == "1", b == "1"⟩, skipPending := c == "1", popNull := d == "1", dropEmpty := e == "1", lateUnerase := g == "1" }, "cfg")
   | ["new", k] =>
     match k.toNat? with
-    | some k => ({ cfg := s.cfg, skipPending := s.skipPending, popNull := s.popNull, l := { failAt := k } }, "new")
+    | some k => ({ cfg := s.cfg, skipPending := s.skipPending, popNull := s.popNull, dropEmpty := s.dropEmpty, lateUnerase := s.lateUnerase, l := { failAt := k } }, "new")
     | none => (s, "bad")
   | ["ledger"] => ({ s with trace := some {}, inTrace := true }, "ledger")
   | ["alloc", id] => match id.toNat? with
@@ -270,6 +327,11 @@ def step (s : St) (ws : List String) : St × String :=
     | "ra" :: rest => raStep s rest
     | "ap" :: rest => apStep s rest
     | "os" :: rest => osStep s rest
+    | "dql" :: rest => dqStep false s rest
+    | "dqb" :: rest => dqStep true s rest
+    | "m" :: rest => mapStep s rest
+    | "mb" :: "new" :: rest => mapStep s ("newboxed" :: rest)
+    | "mb" :: rest => mapStep s rest
     | ["v", "destroy"] =>
       -- ~XalanTransformer: XalanDestroy every object the vector holds, then ~XalanVector
       let held := s.created.filter fun c => s.vec.items.contains (Int.ofNat c.1)
